@@ -4,6 +4,7 @@ deprecations, hidden fields, custom directive definitions), move a random subset
 import copy
 
 from simv.gen.values import gen_literal
+from simv.model.schema import NULL_REASON  # noqa: E402
 from simv.model.schema import (
     ABSENT, ArgDef, DirUse, DirectiveDef, EnumValueDef, L, N, NN, arg_str, dirs_str, directive_def_str, field_str,
     schema_def_str, tstr, typedef_chunks, value_str,
@@ -56,7 +57,7 @@ def decorate(schema, tape):
             for v in td.values:
                 v.directives = apply("ENUM_VALUE")
                 if t.chance(25):
-                    v.deprecated = True if t.chance(40) else t.choose(["old", "use B", "", "see \\u0041"])
+                    v.deprecated = True if t.chance(40) else t.choose(["old", "use B", "", "see \\u0041", NULL_REASON])
             if all(v.deprecated is not None for v in td.values):
                 td.values[0].deprecated = None
         elif kind == "INPUT_OBJECT":
@@ -70,7 +71,7 @@ def decorate(schema, tape):
                 if t.chance(25):
                     f.description = t.choose(DESCS)
                 if t.chance(20):
-                    f.deprecated = True if t.chance(40) else t.choose(["old", "r e a s o n"])
+                    f.deprecated = True if t.chance(40) else t.choose(["old", "r e a s o n", NULL_REASON])
                 if kind == "OBJECT" and t.chance(12):
                     f.hidden = True
                 for a in f.args.values():
@@ -199,6 +200,8 @@ def dep(x):
         return (False, None)
     if x is True:
         return (True, "No longer supported")
+    if x is NULL_REASON:
+        return (True, None)
     return (True, x)
 
 
